@@ -24,7 +24,7 @@ A_TOKENS = ["", "x", "\n", "<pre>", "<textarea>", "<listing>", "<table>", "<tabl
 NA = len(A_TOKENS)
 B_DOCS = [("<div>\n<b>x", None), ("<table>b</table>", None), ("<p>x", None), ("\n", None), ("<pre>\nx", None), ("<textarea>\nx", None), ("<svg><b>", None), ("<table><tr><td>a</table>", None), ("<b>1<p>2</b>3", None),
           ("<!DOCTYPE html><p>a<table>b", None), ("<frameset></frameset>", None), ("<title>a</title>x", None), ("<select><option>a", None), ("x", "div"), ("<td>a", "tr"), ("\n<b>", "pre"), ("a", "table"), ("<u1><u2><p>", None),
-          ("<form><form>", None), ("<a><a>", None), ("<html a=c e=f>", None), ("<script>a</script>b", None), ("<li><li>", None), ("<nobr><nobr>", None)]
+          ("<form><form>", None), ("<a><a>", None), ("<html a=c e=f>", None), ("<script>a</script>b", None), ("<li><li>", None), ("<nobr><nobr>", None), ("<p><table>x", "div"), ("<p>a<table>b", None), ("<p><table>", "td"), ("<!DOCTYPE html><p><table>", None)]
 NB = len(B_DOCS)
 ACTX = P("actx", 0)
 
